@@ -286,7 +286,7 @@ def sweep_records(seed, tier):
     from sim.threadsim.child import MICRO_KINDS
 
     for what in MICRO_KINDS:
-        for rep in range(8 if tier == "quick" else 24):
+        for rep in range(12 if tier == "quick" else 24):
             k += 1
             rng = random.Random(common.derive_seed("C19-sweep", seed, k))
             md = rng.choice([None, "duckdb", "snowflake", "bigquery", "postgres", "mysql", "spark", "tsql", "oracle", "clickhouse", "presto", "hive"])
